@@ -17,4 +17,15 @@ MoreStreams ==
     << F(2, TRUE, 300), F(1, FALSE, 125), F(0, FALSE, 0), F(0, TRUE, 1), F(2, TRUE, 90) >>,
     << F(2, TRUE, 0) >> }
 MCStreams == IF Full THEN QuickStreams \cup MoreStreams ELSE QuickStreams
+
+(* Control frames of every payload size glued to the handshake: a ping or  *)
+(* pong of n bytes followed by a text message, a text message followed by  *)
+(* a close frame of n bytes (status code + reason), and a ping in the      *)
+(* middle of a fragmented message.  Quick: the sizes around the small      *)
+(* read-buffer sizes; Full: every size 0..125.                             *)
+CtlSizes == IF Full THEN 0..125 ELSE {0, 1, 15, 16, 17, 63, 64, 65, 100, 123, 124, 125}
+MCCtlStreams ==
+  {<< F(op, TRUE, n), F(1, TRUE, 5) >> : op \in {9, 10}, n \in CtlSizes}
+  \cup {<< F(1, TRUE, 3), F(8, TRUE, n) >> : n \in CtlSizes \ {1}}
+  \cup {<< F(2, FALSE, 4), F(9, TRUE, n), F(0, TRUE, 2) >> : n \in (IF Full THEN CtlSizes ELSE {17, 65, 125})}
 =============================================================================
